@@ -997,6 +997,11 @@ theorem full_step (s s' : St) (e : Ev) (hf : Full s) (h : step s e = some s') : 
     | throw k => exact step_throw s s' k hi h
     | exc k => exact step_exc s s' k hi h
     | dec k last => exact step_dec s s' k last hi h
+    | decide k err =>
+      simp only [step] at h
+      split at h
+      · simp only [Option.some.injEq] at h; subst h; exact hi
+      · simp at h
     | sig err tok => exact step_sig1 s s' err tok hi hph h
 
 theorem full_of_accepted {S : CTy} {w n L : Nat} {v : Int} (hs : Safe S w n) (hL : L < w)
@@ -1098,7 +1103,7 @@ theorem step_to_ph1 (s s' : St) (e : Ev) (hp : s.ph ≠ 1) (h : step s e = some 
     | (simp only [Option.some.injEq] at h; subst h
        first
        | rfl
-       | (exfalso; dsimp only at h1; omega))
+       | (exfalso; (try dsimp only at h1); omega))
 
 theorem protoReach_step (s s' : St) (e : Ev) (hr : ProtoReach s) (h : step s e = some s') :
     ProtoReach s' := by
